@@ -1,5 +1,222 @@
 package c09
 
-import "github.com/bufbuild/bufverif/internal/evid"
+import (
+	"context"
+	"encoding/json"
+	"fmt"
+	"os"
+	"path/filepath"
+	"sort"
+	"strings"
 
-func commitStore(r *evid.Run, scratch string) {}
+	"github.com/bufbuild/buf/private/bufpkg/bufmodule"
+	"github.com/bufbuild/buf/private/bufpkg/bufmodule/bufmodulestore"
+	"github.com/bufbuild/buf/private/bufpkg/bufmodule/bufmoduletesting"
+	"github.com/bufbuild/buf/private/bufpkg/bufparse"
+	"github.com/bufbuild/bufverif/internal/bufx"
+	"github.com/bufbuild/bufverif/internal/evid"
+	"github.com/google/uuid"
+)
+
+// commitStore: every single-file tampering of a complete commit-cache entry, and every crash
+// snapshot of a commit store, through both lookup routes (by module key = digest pinned, by commit key).
+func commitStore(r *evid.Run, scratch string) {
+	ctx := context.Background()
+	omni, err := bufmoduletesting.NewOmniProvider(bufmoduletesting.ModuleData{
+		Name:       "buf.build/acme/main",
+		CommitID:   uuid.MustParse("00000000-0000-4000-8000-0000000000aa"),
+		PathToData: map[string][]byte{"a.proto": []byte("syntax = \"proto3\";\npackage a;\n")},
+	})
+	if err != nil {
+		r.Incomplete(err.Error())
+		return
+	}
+	ref, _ := bufparse.NewRef("buf.build", "acme", "main", "")
+	outcomes := map[string]int{}
+	n := 0
+	for _, digestType := range []bufmodule.DigestType{bufmodule.DigestTypeB5, bufmodule.DigestTypeB4} {
+		keys, err := omni.GetModuleKeysForModuleRefs(ctx, []bufparse.Ref{ref}, digestType)
+		if err != nil {
+			r.Incomplete(err.Error())
+			return
+		}
+		commits, err := omni.GetCommitsForModuleKeys(ctx, keys)
+		if err != nil {
+			r.Incomplete(err.Error())
+			return
+		}
+		pinned, _ := keys[0].Digest()
+		commitKey, err := bufmodule.ModuleKeyToCommitKey(keys[0])
+		if err != nil {
+			r.Incomplete(err.Error())
+			return
+		}
+		base := newDir(scratch)
+		if err := bufmodulestore.NewCommitStore(bufx.Logger, osBucket(base)).PutCommits(ctx, commits); err != nil {
+			r.Incomplete("commit store put failed: " + err.Error())
+			return
+		}
+		snap := snapshotDir(base)
+		os.RemoveAll(base)
+		var files []string
+		for p := range snap {
+			files = append(files, p)
+		}
+		sort.Strings(files)
+		if len(files) != 1 {
+			r.Incomplete(fmt.Sprintf("commit store wrote %d files, expected 1", len(files)))
+			return
+		}
+		f := files[0]
+		content := snap[f]
+		type tamper struct {
+			desc    string
+			content *string // nil = delete the file
+		}
+		str := func(s string) *string { return &s }
+		tampers := []tamper{{"untouched", str(content)}, {"delete the file", nil}, {"empty file", str("")}, {"truncate to half", str(content[:len(content)/2])}, {"null", str("null")}, {"empty object", str("{}")}, {"array", str("[]")}}
+		// every single-byte substitution that keeps the byte class (digit->digit, hex->hex, other ^1)
+		for i := 0; i < len(content); i++ {
+			b := []byte(content)
+			switch {
+			case b[i] >= '0' && b[i] <= '8':
+				b[i]++
+			case b[i] == '9':
+				b[i] = '0'
+			case b[i] >= 'a' && b[i] <= 'e':
+				b[i]++
+			case b[i] == 'f':
+				b[i] = 'a'
+			default:
+				b[i] ^= 0x01
+			}
+			tampers = append(tampers, tamper{fmt.Sprintf("substitute byte %d", i), str(string(b))})
+		}
+		// every well-formed document obtained by deleting one field, or blanking one value
+		var doc map[string]any
+		if err := json.Unmarshal([]byte(content), &doc); err == nil {
+			var fieldNames []string
+			for k := range doc {
+				fieldNames = append(fieldNames, k)
+			}
+			sort.Strings(fieldNames)
+			for _, k := range fieldNames {
+				for _, mode := range []string{"delete", "empty-string", "null", "number"} {
+					m := map[string]any{}
+					for kk, vv := range doc {
+						m[kk] = vv
+					}
+					switch mode {
+					case "delete":
+						delete(m, k)
+					case "empty-string":
+						m[k] = ""
+					case "null":
+						m[k] = nil
+					case "number":
+						m[k] = 7
+					}
+					b, _ := json.Marshal(m)
+					tampers = append(tampers, tamper{fmt.Sprintf("well-formed document with field %q %s", k, mode), str(string(b))})
+				}
+			}
+			// a digest of the other type
+			other := "b4"
+			if strings.HasPrefix(fmt.Sprint(doc["digest"]), "b4") {
+				other = "b5"
+			}
+			if d, ok := doc["digest"].(string); ok && len(d) > 3 {
+				m := map[string]any{}
+				for kk, vv := range doc {
+					m[kk] = vv
+				}
+				m["digest"] = other + d[2:]
+				b, _ := json.Marshal(m)
+				tampers = append(tampers, tamper{"well-formed document with the digest type swapped", str(string(b))})
+			}
+		}
+		for ti, t := range tampers {
+			dir := newDir(scratch)
+			if t.content != nil {
+				restoreDir(dir, map[string]string{f: *t.content})
+			}
+			for _, route := range []string{"by-module-key", "by-commit-key"} {
+				c := caseT{Section: "commit-store", Module: digestType.String(), Layout: route, Detail: "tampering: " + t.desc}
+				out := func() (out string) {
+					defer func() {
+						if rec := recover(); rec != nil {
+							out = "PANIC: " + fmt.Sprint(rec)
+						}
+					}()
+					store := bufmodulestore.NewCommitStore(bufx.Logger, osBucket(dir))
+					var found []bufmodule.Commit
+					var missing int
+					var err error
+					if route == "by-module-key" {
+						var nf []bufmodule.ModuleKey
+						found, nf, err = store.GetCommitsForModuleKeys(ctx, keys)
+						missing = len(nf)
+					} else {
+						var nf []bufmodule.CommitKey
+						found, nf, err = store.GetCommitsForCommitKeys(ctx, []bufmodule.CommitKey{commitKey})
+						missing = len(nf)
+					}
+					if err != nil {
+						return "error"
+					}
+					if len(found)+missing != 1 {
+						return fmt.Sprintf("BAD-COUNT found=%d missing=%d", len(found), missing)
+					}
+					if len(found) == 0 {
+						return "miss"
+					}
+					if found[0] == nil {
+						return "NIL-FOUND"
+					}
+					mk := found[0].ModuleKey()
+					if mk == nil {
+						return "NIL-MODULE-KEY"
+					}
+					d, derr := mk.Digest()
+					if derr != nil {
+						return "digest-error"
+					}
+					if route == "by-module-key" && !bufmodule.DigestEqual(d, pinned) {
+						return "WRONG-DIGEST served " + d.String()
+					}
+					if _, terr := found[0].CreateTime(); terr != nil {
+						return "create-time-error"
+					}
+					return "hit"
+				}()
+				outcomes[route+":"+strings.SplitN(out, " ", 2)[0]]++
+				n++
+				r.Eval(1)
+				r.Distinct(fmt.Sprintf("commit|%s|%s|%s", digestType, route, t.desc))
+				r.SampleEvery(ti, 97, func() any { return c })
+				if strings.HasPrefix(out, "PANIC") || strings.HasPrefix(out, "NIL") || strings.HasPrefix(out, "BAD") || strings.HasPrefix(out, "WRONG") {
+					kind := strings.SplitN(out, " ", 2)[0]
+					kind = strings.TrimSuffix(kind, ":")
+					r.Violate(fmt.Sprintf("commit-store/%s/%s/%s", kind, route, tamperClass(t.desc)), fmt.Sprintf("commit store (%s, %s) after %s: %s", digestType, route, t.desc, out), c)
+				}
+				if t.desc == "untouched" && out != "hit" {
+					r.Violate("commit-store/untouched-entry-not-served/"+route, "a complete commit entry is not served: "+out, c)
+				}
+			}
+			os.RemoveAll(dir)
+		}
+	}
+	r.Set("commit_store_cases", n)
+	r.Set("commit_store_outcomes", outcomes)
+	_ = filepath.Join
+}
+
+func tamperClass(desc string) string {
+	switch {
+	case strings.HasPrefix(desc, "substitute byte"):
+		return "byte-substitution"
+	case strings.HasPrefix(desc, "well-formed document"):
+		return "well-formed-but-invalid-document"
+	}
+	return strings.ReplaceAll(desc, " ", "-")
+}
